@@ -13,6 +13,7 @@ def run(ctx):
         "Model/Life.lean (hand-written from Proxy.Run's reconnect branch, Proxy.ConnectDest, Scheduler.Run's destination-error handling) on top of Model/Session.lean",
         "lifecycle harness harness/tcphandlers/verif_life_test.go: the real TCP handler (tcphandlers.NewTCPHandler: StratumConnection, ConnSource, Proxy, Scheduler, the allocator's miner list) serving a fake miner over net.Pipe, with fake pools behind the DestConnFactory seam, in a synctest bubble; pool-side close, unreachable / not authorising pools, handshake faults, miner hang-up, shutdown, idle time; after every op the open pool connections, the number of Proxy.Run / Pipe.Run goroutines (from runtime.Stack), whether the scheduler runs and whether the miner is listed",
         "monitor Driver/LifeMon.lean on the random stream: dials per pool within one per failure / task / initial connection (no reconnect storm), a pool connection is closed by the proxy only with a reason, a failed change of destination keeps the miner on its pool",
+        "real-time histories harness/tcphandlers/verif_lifert_test.go (the same real TCP handler against the wall clock, four timings in parallel): the active pool breaks, a task's destination change starts during the 3 s reconnect wait and is still in its handshake when the wait ends; judged by Driver/LifeMon.lean monitorRT (one connection to the task's pool, relayed in both directions with it only, the broken pool not dialled on top)",
         "modelled, not verified: timing inside one quiescence step; which error wins after a shutdown",
     ]
     ctx.assumptions += ["faults are pool-side closes (resets and stalls are represented by closes and by unanswered requests)", "events are separated by quiescence; nothing happens exactly at the instant the reconnect is due"]
@@ -25,6 +26,36 @@ def run(ctx):
     quick = ctx.tier == "quick"
     reg, rnd = S.run_life(ctx, "C06", exe, 200 if quick else 3000, 200 if quick else 3000)
     S.coverage(ctx, reg, rnd, RULE)
+    # real time: a destination change still in its dial / handshake when the reconnect wait ends (Proxy.Run then waits on a
+    # sync.Mutex, which freezes a synctest clock); four variants run in parallel against the wall clock (about 10 s)
+    def rt_run():
+        rc, out = L.run_harness(ctx, exe, "TestVerifLifeRealtime$", env={}, timeout=180)
+        if rc != 0:
+            ctx.tie_failures.append("real-time lifecycle run failed (rc=%d): %s" % (rc, out[-300:]))
+            return None
+        found = {}
+        for case, c in L.run_monitor(ctx, "lifert", "lifert.impl.txt"):
+            body, _, op = c.partition(" @ ")
+            if body.startswith("C06 "):
+                found[op] = (case, body)
+        return found
+    first = rt_run()
+    if first is None:
+        return
+    rt = L.parse_cases(ctx.out + "/lifert.impl.txt")
+    if first:
+        # wall-clock runs can be disturbed by load: a complaint counts only if the same timing complains again
+        second = rt_run() or {}
+        first = {op: v for op, v in first.items() if op in second}
+    seen = set()
+    for op, (case, body) in sorted(first.items()):
+        sig = "c06:rt-" + ("change-under-way-at-reconnect" if "in service" in body else "failed-change-not-served-by-default")
+        if sig in seen:
+            continue
+        seen.add(sig)
+        L.violation(ctx, sig, body[4:] + " @ " + op, {"clause": body[4:], "case": case, "ops": ["> " + op],
+                                                      "how_to_replay": "bin/check C06 --tier quick (the four real-time variants are run every time; the op names the timing)"})
+    ctx.coverage["realtime_histories"] = len(rt)
 
 
 def replay(ctx, path):
